@@ -156,6 +156,7 @@ def _gen_saddle(rng, solver):
             if rng.random() < 0.6:
                 cfg['Ls'][1] = dict(cfg['Ls'][0])
                 cfg['Ls'][1]['seed'] = rng.getrandbits(32)
+    cfg['x0pat'] = rng.choice(['rand'] * 7 + ['zero', 'zero_entries', 'ints'])
     if solver == 'douglas_rachford' and rng.random() < 0.3:
         # optional infimal-convolution terms l_i of douglas_rachford_pd: a
         # Huber term is passed as g_i = lam |.|_1, l_i = lam/(2 gamma) |.|^2
@@ -275,6 +276,18 @@ class Saddle(object):
                             cfg['seed'] + 13 + i)
         gg = np_rng('c12x0', cfg['seed'])
         self.x0 = P.rand_elem(self.X, gg)
+        pat = cfg.get('x0pat', 'rand')
+        if pat != 'rand' and 'kl' not in str(cfg['f']):
+            # start values random draws never produce (kinks of l1 terms)
+            from ..core import elem_arrays
+            gp = np_rng('c12x0pat', cfg['seed'])
+            for a in elem_arrays(self.x0):
+                if pat == 'zero':
+                    a[...] = 0
+                elif pat == 'ints':
+                    a[...] = np.round(2 * a)
+                else:
+                    a[gp.random(a.shape) < 0.5] = 0
         if cfg['f']['fam'] == 'kl' or (cfg['f']['fam'] == 'sepsum'):
             # start inside the (open) domain of f
             self.x0 = P.unflatten(self.X, np.abs(elem_flat(self.x0)) + 0.1) \
